@@ -432,6 +432,54 @@ pub fn disturbance_pass<T: Sync>(
         let id = run.id.clone();
         return run.violation(&format!("{}.after_disturbance", id), &format!("{} ; {}", name, sig), json!({"disturbance": name, "clause": clause, "case": case}), &format!("right after the calls of the disturbance '{}': {}", name, m));
     }
+    // repetition: the same item over and over (hit counters, entries that change after N hits), then
+    // every item once
+    {
+        let len = items.len();
+        let picks: Vec<usize> = [0usize, len / 7, len / 3, len / 2, (2 * len) / 3, len - 1].iter().map(|i| (*i).min(len - 1)).collect();
+        let reps: usize = 66_000;
+        let mut cnt = 0u64;
+        let mut bad: Option<(usize, usize, usize, String)> = None;
+        'outer: for (pi, &i) in picks.iter().enumerate() {
+            // the last pick is repeated fewer times when checks are expensive items lists are long
+            let n = if pi < 3 { reps } else { 1100 };
+            for r in 0..n {
+                cnt += 1;
+                match guard(|| check(&items[i])) {
+                    Ok(Ok(())) => {}
+                    Ok(Err(m)) => {
+                        bad = Some((i, i, r, m));
+                        break 'outer;
+                    }
+                    Err(p) => {
+                        bad = Some((i, i, r, format!("panicked: {}", p)));
+                        break 'outer;
+                    }
+                }
+            }
+            for (j, b) in items.iter().enumerate() {
+                cnt += 1;
+                match guard(|| check(b)) {
+                    Ok(Ok(())) => {}
+                    Ok(Err(m)) => {
+                        bad = Some((i, j, n, m));
+                        break 'outer;
+                    }
+                    Err(p) => {
+                        bad = Some((i, j, n, format!("panicked: {}", p)));
+                        break 'outer;
+                    }
+                }
+            }
+        }
+        run.generator("one item checked 66,000 (1,100) times in a row, then every item", "repetition soak (histories)", Some(cnt), cnt, cnt, "6 items spread over the list; hit counters, entries that change after N hits");
+        if let Some((i, j, r, m)) = bad {
+            let (clause, case, sig) = to_case(&items[j]);
+            let (_, rep_case, rep_sig) = to_case(&items[i]);
+            let id = run.id.clone();
+            return run.violation(&format!("{}.after_repetition", id), &format!("{} x{} ; {}", rep_sig, r, sig), json!({"repeat": rep_case, "times": r, "clause": clause, "case": case}), &format!("after the item {} had been checked {} times in a row: {}", rep_sig, r, m));
+        }
+    }
     // concurrent phase
     const THREADS: usize = 8;
     let len = items.len();
@@ -525,6 +573,13 @@ pub fn disturbance_pass<T: Sync>(
 pub fn replay_after_disturbance(case: &Value, check_case: fn(&str, &Value) -> Result<(), String>) -> Result<(), String> {
     // also used for `<ID>.concurrent` cases (no disturbance recorded: the single-thread check of the item)
     run_disturbance(case["disturbance"].as_str().unwrap_or(""));
+    if let Some(rep) = case.get("repeat") {
+        // `<ID>.after_repetition`: the recorded item is checked the recorded number of times first
+        let times = case["times"].as_u64().unwrap_or(0);
+        for _ in 0..times {
+            check_case(case["clause"].as_str().unwrap_or(""), rep)?;
+        }
+    }
     if let Some(fc) = case.get("first_call") {
         if !fc.is_null() {
             // single-threaded cold-start case: the recorded first call comes first (a replay process is fresh)
@@ -532,4 +587,40 @@ pub fn replay_after_disturbance(case: &Value, check_case: fn(&str, &Value) -> Re
         }
     }
     check_case(case["clause"].as_str().unwrap_or(""), &case["case"])
+}
+
+/// Call-count soak: `step(n)` is called for n in 0..total (split over 8 threads by ranges), each call
+/// checked; the first failure is reported as `<ID>.soak` (replayed single-threaded up to that n).
+pub fn count_soak(run: &mut Run, what: &str, total: u64, step: &(dyn Fn(u64) -> Result<(), String> + Sync)) -> PResult {
+    if run.is_twin() {
+        return Ok(());
+    }
+    use rayon::prelude::*;
+    const PARTS: u64 = 8;
+    let per = total / PARTS + 1;
+    let bad: Option<(u64, String)> = (0..PARTS).into_par_iter().find_map_any(|k| {
+        for n in k * per..(k + 1) * per {
+            match guard(|| step(n)) {
+                Ok(Ok(())) => {}
+                Ok(Err(m)) => return Some((n, m)),
+                Err(p) => return Some((n, format!("panicked: {}", p))),
+            }
+        }
+        None
+    });
+    run.generator(&format!("call-count soak: {}", what), "call-count soak", None, per * PARTS, 0, "every call checked; behaviour that depends on the number of calls made in the process (counters that wrap or saturate, periodic maintenance of a cache)");
+    if let Some((n, m)) = bad {
+        let id = run.id.clone();
+        return run.violation(&format!("{}.soak", id), &format!("call {}", n), json!({"calls": n + 1}), &format!("call number {} (of about {} made by 8 threads) of the soak '{}': {}", n, per * PARTS, what, m));
+    }
+    Ok(())
+}
+
+/// replay of an `<ID>.soak` case: the same steps on one thread
+pub fn replay_soak(case: &Value, step: &dyn Fn(u64) -> Result<(), String>) -> Result<(), String> {
+    let calls = case["calls"].as_u64().unwrap_or(1 << 24).min(1 << 33);
+    for n in 0..calls {
+        step(n).map_err(|m| format!("call {}: {}", n, m))?;
+    }
+    Ok(())
 }
